@@ -87,6 +87,7 @@ struct Ledger {
 };
 
 // libc calls made from the library's own objects (renamed by objcopy to vf_lib_*): counted here.
-struct LibcLog { uint64_t n_malloc, n_calloc, n_realloc, n_reallocarray, n_free, n_free_nonnull; long balance; };
+struct LibcLog { uint64_t n_malloc, n_calloc, n_realloc, n_reallocarray, n_free, n_free_nonnull; long balance;
+    uint64_t n_requests, fail_at, fail_at2, fail_from, n_failed; uint64_t bad_free; };
 extern LibcLog g_libc;
 static inline uint64_t libc_alloc_calls() { return g_libc.n_malloc + g_libc.n_calloc + g_libc.n_realloc + g_libc.n_reallocarray; }
